@@ -27,6 +27,7 @@ def shards(tier, seed):
     m = 4 if tier == "quick" else 16
     out += [{"name": f"corrupt-{i}", "kind": "corrupt", "i": i, "n": m, "tier": tier, "seed": seed} for i in range(m)]
     out += [{"name": f"stream-{c}", "kind": "stream", "client": c, "tier": tier, "seed": seed} for c in ("ebyte", "yd", "usb")]
+    out += [{"name": "threads", "kind": "threads", "tier": tier, "seed": seed}]
     return out
 
 
@@ -355,8 +356,24 @@ def run_stream(spec, acc):
     simgw.c06_stream_clause(spec, acc)
 
 
+def run_threads(spec, acc):
+    """An encoder and a decoder per thread (an application with one thread per gateway): what each thread's encoder produces
+    is what it produces alone, and its decoder gets the message back."""
+    from .. import threadwork
+    n, wrong, errors = threadwork.encoder_round_trips(spec, acc, ID)
+    acc.count("format_roundtrips_compared", n)
+    if errors:
+        acc.violation("encode-raised", f"encoders and decoders of their own in several threads: {errors[0]}", {"errors": errors[:5]})
+    if wrong:
+        t, did, fmt, what, detail = wrong[0]
+        key = "format-roundtrip-header-differ" if what == "decoded" else "encoder-output-differs-between-threads"
+        acc.violation(key, f"{did} {fmt}: thread {t} (own encoder, own decoder, other threads busy with theirs): "
+                      + (f"the decoder returned {detail}" if what == "decoded" else f"the packets are not the ones this encoder produces alone (foreign identifiers: {detail})"),
+                      {"definition": did, "fmt": fmt, "thread": t, "what": what, "detail": repr(detail)})
+
+
 def run_shard(spec, acc):
-    {"defs": run_defs, "corrupt": run_corrupt, "stream": run_stream}[spec["kind"]](spec, acc)
+    {"defs": run_defs, "corrupt": run_corrupt, "stream": run_stream, "threads": run_threads}[spec["kind"]](spec, acc)
 
 
 def replay(w, acc):
